@@ -363,8 +363,10 @@ def run(repo, tier):
     run_L5(repo, res)
     run_A2(repo, res, d)
     run_ECALL(repo, res, ft)
+    from .C19 import normalization_rules
+    normalization_rules(repo, res)   # profile normalisation state (anchored in C09 too)
     res.floor('L1', 3000)
-    res.floor('L2', 4)
+    res.floor('L2', 5)
     res.floor('L3', 8)
     res.floor('L4', 15)
     res.floor('L5', 1)
